@@ -4,9 +4,10 @@ import GeomV.C04.LoopLemmas
 receiver-derived fuel) is the model's fuel-free state machine `next2`. -/
 set_option linter.unusedVariables false
 set_option linter.unusedSimpArgs false
+set_option linter.unusedSectionVars false
 namespace GeomV.C04
 open GeomV
-variable {α : Type}
+variable {α : Type} [LT α] [DecidableLT α]
 
 theorem C04_tie_Polygon_Points (rs : List (List (Pt α))) (i j : Nat) :
     init (.polygon rs) = .ok (.two Gen.polygonPointsInit.1 Gen.polygonPointsInit.2) ∧
